@@ -536,7 +536,12 @@ func (c *StructCode) removeFieldsByTags(tags runtime.StructTags) {
 	for _, field := range c.fields {
 		if field.isAnonymous {
 			structCode := field.getAnonymousStruct()
-			if structCode != nil && !structCode.isRecursive {
+			if structCode != nil && structCode.isRecursive {
+				// an embedded struct that leads back to a struct it is embedded in adds no member:
+				// each of its members is hidden by the same member at the shallower depth
+				continue
+			}
+			if structCode != nil {
 				structCode.removeFieldsByTags(tags)
 				if len(structCode.fields) > 0 {
 					fields = append(fields, field)
